@@ -63,7 +63,10 @@ func runChain(t *rapid.T, rec *ev.Rec) {
 	}
 	ring := nodesim.NewKeyRing(w.NVals + w.Spare)
 	// a small block size makes the oversize path of the proposer reachable with a handful of transactions
-	blockSize := rapid.SampledFrom([]uint64{0, 0, lib.MaxBlockHeaderSize + 600, lib.MaxBlockHeaderSize + 1200, lib.MaxBlockHeaderSize + 2500}).Draw(t, "blockSize")
+	// (the last value: room for ~430 small sends - filled to the brim below, the serialized block then exceeds the parameter
+	// by its per-transaction framing although the transaction budget is met)
+	blockSize := rapid.SampledFrom([]uint64{0, 0, lib.MaxBlockHeaderSize + 600, lib.MaxBlockHeaderSize + 1200, lib.MaxBlockHeaderSize + 2500, lib.MaxBlockHeaderSize + 93000}).Draw(t, "blockSize")
+	fullMode, fullDone := blockSize == lib.MaxBlockHeaderSize+93000, false
 	if blockSize != 0 && ev.Open(kfOversizeLeak) {
 		// known finding: a mempool backlog beyond one block makes every proposal invalid; keep the oversize path unreachable
 		rec.Exclude(kfOversizeLeak)
@@ -71,7 +74,7 @@ func runChain(t *rapid.T, rec *ev.Rec) {
 	}
 	cs.ClassIf(blockSize != 0, "small-block-size")
 	if long {
-		blockSize = 0
+		blockSize, fullMode = 0, false
 	}
 	gen := w.Genesis(blockSize)
 	var snapshot *vfs.MemFS
@@ -96,7 +99,19 @@ func runChain(t *rapid.T, rec *ev.Rec) {
 	}
 	a, b := mk("A", 0), mk("B", 1)
 	g := &nodesim.Group{Sim: sim, Ring: ring, Nodes: []*nodesim.Node{a, b}}
-	cs.Desc("stakes=%v blockSize=%d", w.Stakes, blockSize)
+	// the proposal-vote configuration the controllers are in (identical on all nodes): APPROVE_LIST (first rounds of a young
+	// height) or REJECT_ALL (round >= 3 / height older than 3 block times); it may switch in the middle of a height
+	approveMode := rapid.Bool().Draw(t, "approveListMode")
+	setMode := func(on bool) {
+		approveMode = on
+		for _, n := range sim.Nodes {
+			n.SetApproveList(on)
+		}
+	}
+	setMode(approveMode)
+	cs.ClassIf(approveMode, "vote-config=approve-list")
+	cs.ClassIf(!approveMode, "vote-config=reject-all")
+	cs.Desc("stakes=%v blockSize=%d approveList=%v", w.Stakes, blockSize, approveMode)
 	fatalf := func(format string, args ...any) {
 		t.Fatalf("%s", clipLines(fmt.Sprintf("%s\nchain: %s", fmt.Sprintf(format, args...), cs.Descriptor()), 16000))
 	}
@@ -128,6 +143,39 @@ func runChain(t *rapid.T, rec *ev.Rec) {
 				cs.Class("tx=" + tx.Kind)
 			}
 		}
+		// a block filled to the brim with hundreds of small transactions (more offered than fit)
+		if fullMode && i >= 1 && (!fullDone || rapid.Bool().Draw(t, "fullAgain")) {
+			fullDone = true
+			for j := 0; j < 470; j++ {
+				tx := w.Send(w.Rich[j%4], nodesim.Addr(1, 70+j%5), uint64(1+j), 15000+uint64(j%7)*10, ht, "")
+				offered = append(offered, tx)
+				_, _ = a.AddTx(tx), b.AddTx(tx)
+			}
+			bigHeights[ht] = true
+			cs.Class("full-block(hundreds of small txs up to the size limit)")
+			cs.Desc("h%d:+470 sends (block size %d)", ht, blockSize)
+		}
+		// signature-batch pattern, consecutive in fee order: a send validly signed by a key that is NOT an authorized signer,
+		// a send with a forged signature, then validly signed sends (the batch verifier's index bookkeeping must survive the
+		// transaction that queued a signature and then failed)
+		if rapid.IntRange(0, 2).Draw(t, "sigPattern") == 0 {
+			base := uint64(22000 + 10*i)
+			pat := [][]byte{w.SendSignedBy(w.Rich[1], w.Rich[0], nodesim.Addr(1, 45), 3, base, ht)}
+			forged := w.Send(w.Rich[2], nodesim.Addr(1, 46), 4, base-1, ht, "")
+			ftx := new(lib.Transaction)
+			_ = lib.Unmarshal(forged, ftx)
+			ftx.Signature.Signature[7] ^= 0x20
+			pat = append(pat, mustMarshal(ftx))
+			for j := 0; j < 2; j++ {
+				pat = append(pat, w.Send(w.Rich[(j+3)%len(w.Rich)], nodesim.Addr(1, 47), uint64(5+j), base-2-uint64(j), ht, ""))
+			}
+			for _, tx := range pat {
+				offered = append(offered, tx)
+				_, _ = a.AddTx(tx), b.AddTx(tx)
+			}
+			cs.Class("sig-pattern(unauthorized,forged,valid..)")
+			cs.Desc("h%d:sig-pattern", ht)
+		}
 		// an occasional BIG block: more than 127 transactions (per-block positions beyond one varint byte / one digit group)
 		if blockSize == 0 && !bigDone && rapid.IntRange(0, 9).Draw(t, "bigBlock") < 3 {
 			bigDone = true
@@ -143,7 +191,7 @@ func runChain(t *rapid.T, rec *ev.Rec) {
 		}
 		// backlog pattern (small block size only): small transactions that nearly fill the block, then - in the mempool's fee
 		// order - a BIG one that no longer fits, then small ones that still would
-		if blockSize != 0 && rapid.Bool().Draw(t, "sizePattern") {
+		if blockSize != 0 && !fullMode && rapid.Bool().Draw(t, "sizePattern") {
 			limit := int(blockSize - lib.MaxBlockHeaderSize)
 			memo := make([]byte, rapid.SampledFrom([]int{150, 200}).Draw(t, "bigMemo"))
 			for i := range memo {
@@ -182,6 +230,15 @@ func runChain(t *rapid.T, rec *ev.Rec) {
 		}
 		proposer := rapid.IntRange(0, 1).Draw(t, "proposer")
 		ld, other := g.Nodes[proposer], g.Nodes[1-proposer]
+		// the vote configuration switches while the leader already holds a cached proposal of the other configuration
+		if rapid.IntRange(0, 2).Draw(t, "voteConfigSwitch") == 0 {
+			if _, e := ld.Produce(); e != nil {
+				fatalf("VIOLATION C11/C15: %s cannot build a proposal from its mempool at height %d: %v", ld.Name, ht, e)
+			}
+			setMode(!approveMode)
+			cs.Class("vote-config-switch-with-cached-proposal")
+			cs.Desc("h%d:vote config -> approveList=%v", ht, approveMode)
+		}
 		vs, ce := ld.Committee(ld.C.RootChainHeight())
 		if ce != nil || vs.ValidatorSet == nil || len(vs.ValidatorSet.ValidatorSet) == 0 {
 			cs.Class("degenerate:no-committee-left(chain ends)") // every validator paused/unstaked: no chain to check
@@ -280,6 +337,7 @@ func runChain(t *rapid.T, rec *ev.Rec) {
 		cs.ClassIf(long, "long-chain:C-syncs-from-genesis")
 	}
 	c := mk("C", 2)
+	c.SetApproveList(approveMode)
 	live := rapid.IntRange(0, 3).Draw(t, "cLivePath") == 0 // C receives the blocks as gossip (full verification) instead of sync
 	cs.ClassIf(live, "C=live-path")
 	cs.ClassIf(!live, "C=sync-path")
